@@ -402,6 +402,12 @@ class SimulationAlgorithm(BaseSimulationAlgorithm):
                     - individual_parameters_from_model_parameters[f"sources_{i}"].mean()
                 ) / individual_parameters_from_model_parameters[f"sources_{i}"].std()
 
+        if model.source_dimension == 0:
+            # no sources, hence no mixing matrix: the space shifts are null
+            return individual_parameters_from_model_parameters.assign(
+                **{f"w_{i}": 0.0 for i in range(len(self.features))}
+            )
+
         patient_source_values_matrix = torch.stack(
             [
                 torch.tensor(
